@@ -361,7 +361,15 @@ def rules(rep):
         okc = len(clr) == 1 and any(op == "<" and l == "i" and r == "maxopts" for cond, truth in sr.edge_conds(clr[0]) for op, l, r in [(o, sh(L), sh(R)) for o, L, R, _, _ in cond_atoms(cond, truth)])
         st2 = {sh(norm(e.kid(0))): sh(norm(e.kid(1))) for e in sr.all_elems() if e.is_assign and e.op == "=" and norm(e.kid(0))[0] == "v"}
         okc = okc and st2.get("nopts") == "maxopts" and st2.get("opt_default") == "(maxopts+1)" and st2.get("opt_missing") in ("(opt_default=(maxopts+1))", "(maxopts+1)", "opt_default")
-        rep.check(okc, "Q9-table", "setrange empties every slot and places the default and missing-argument indices beyond the table", sr.loc, "%s" % st2,
+        # the table searched is the table cleared: the slot count searchopt scans (nopts) is set to the count just cleared on every
+        # path through setrange, and the table allocated has that many slots
+        ns = [e for e in sr.all_elems() if e.is_assign and e.op == "=" and sh(norm(e.kid(0))) == "nopts"]
+        exits = [r for r in sr.returns()] or []
+        dom = sr.dominators()
+        ends = [pb for pb in sr.blocks[sr.exit].preds if not sr.blocks[pb].noreturn]
+        every = len(ns) == 1 and bool(ends) and all(ns[0].block.id in dom.get(pb, ()) or ns[0].block.id == pb for pb in ends)
+        okc = okc and every
+        rep.check(okc, "Q9-table", "setrange empties every slot and places the default and missing-argument indices beyond the table", sr.loc, ("nopts is not set on every path; " if not every else "") + "%s" % st2,
                   function=sr.name, construct="setrange")
     rep.require_min("Q1-bounds", 6)
     rep.require_min("Q6-args", 2)
